@@ -22,17 +22,17 @@ def check_cell_agree(ctx, repo, rule):
     gd = assign_of(g.node, 'decChunk')
     bd = assign_of(b.node, 'decChunkMin')
     ctx.need(gd and bd, 'chunks.get / getbounds: declination slice formula not found')
-    c1, _ = canon(gd[0].value, extra=('self', 'np', 'int', 'float'))
-    c2, _ = canon(bd[0].value, extra=('self', 'np', 'int', 'float'))
+    c1, _ = canon(expand(gd[0].value, FA(g), depth=4), extra=('self', 'np', 'int', 'float'))
+    c2, _ = canon(expand(bd[0].value, FA(b), depth=4), extra=('self', 'np', 'int', 'float'))
     ctx.check(rule, c1 == c2, g, gd[0], 'declination slice: lookup (get) and insertion (getbounds) use the same formula',
               msg='a first-list point is looked up in a declination slice computed as `%s` while second-list points were entered with `%s`'
                   % (src(gd[0].value)[:70], src(bd[0].value)[:70]), construct='dec slice formulas')
     gr = assign_of(g.node, 'raChunk')
     gr = [st for st in gr if 'floor' in src(st.value)]
-    br = [st for st in walk_local(b.node) if isinstance(st, ast.Assign) and src(st.targets[0]).startswith('raChunkMin[') and 'floor' in src(st.value)]
+    br = [st for st in walk_local(b.node) if isinstance(st, ast.Assign) and src(st.targets[0]).startswith('raChunkMin[') and 'floor' in src(expand(st.value, FA(b), depth=4))]
     ctx.need(gr and br, 'chunks.get / getbounds: RA cell formula not found')
-    c1, _ = canon(gr[0].value, extra=('self', 'np', 'int', 'float'))
-    c2, _ = canon(br[0].value, extra=('self', 'np', 'int', 'float'))
+    c1, _ = canon(expand(gr[0].value, FA(g), depth=4), extra=('self', 'np', 'int', 'float'))
+    c2, _ = canon(expand(br[0].value, FA(b), depth=4), extra=('self', 'np', 'int', 'float'))
     ctx.check(rule, c1 == c2, g, gr[0], 'RA cell: lookup (get) and insertion (getbounds) use the same formula modulo the slice index',
               msg='a first-list point is looked up in an RA cell computed as `%s` while second-list points were entered with `%s`'
                   % (src(gr[0].value)[:70], src(br[0].value)[:70]), construct='RA cell formulas')
@@ -95,6 +95,39 @@ def check_dedup_wrap(ctx, repo, rule):
             if isinstance(a, (ast.For, ast.While)):
                 break
             child = a
+        set_guard = None
+        if guard is None:
+            # alternative idiom: a per-point set of the cells already entered:  if (D, R) not in seen: ...; seen.add((D, R))
+            child = c
+            for a in ancestors(c):
+                if isinstance(a, ast.If) and any(child is x or child in list(ast.walk(x)) for x in a.body):
+                    for cj in _conjuncts(a.test):
+                        if isinstance(cj, ast.Compare) and len(cj.ops) == 1 and isinstance(cj.ops[0], ast.NotIn) and isinstance(cj.left, ast.Tuple) \
+                                and [src(e) for e in cj.left.elts] == [src(D), src(R)] and isinstance(cj.comparators[0], ast.Name):
+                            seen = cj.comparators[0]
+                            adds = [x for x in walk_local(a) if isinstance(x, ast.Call) and call_name(x) == 'add' and isinstance(x.func.value, ast.Name)
+                                    and x.func.value.id == seen.id and x.args and isinstance(x.args[0], ast.Tuple)
+                                    and [src(e) for e in x.args[0].elts] == [src(D), src(R)]]
+                            # the set must be the point's own: created inside the loop over the points, outside the loops over the cells
+                            orig = next((x for x in walk_local(f.node) if isinstance(x, ast.Name) and x.id == seen.id and isinstance(x.ctx, ast.Load)), None)
+                            fresh = [d for d, v in fa.defs(orig) if d is not None] if orig is not None else []
+                            loops_c = [l for l in ancestors(c) if isinstance(l, ast.For)]
+                            per_point = bool(fresh) and all(isinstance(d, ast.Assign) and ((isinstance(d.value, ast.Call) and call_name(d.value) == 'set' and not d.value.args)
+                                                                                          or (isinstance(d.value, ast.Set) and not d.value.elts))
+                                                            and loops_c and any(d in l.body for l in loops_c[-1:]) for d in fresh)
+                            if adds and per_point:
+                                set_guard = a
+                if isinstance(a, (ast.For, ast.While)):
+                    break
+                child = a
+        if set_guard is not None:
+            ctx.check(rule, True, f, c, 'a point is entered at most once per cell: append guarded by a per-point set of the cells already entered')
+            st = c
+            while not isinstance(st, ast.stmt):
+                st = st._parent
+            loop = next((a for a in ancestors(c) if isinstance(a, ast.For)), None)
+            sites.append((st, R, D, loop, 'insertion into the cell list'))
+            continue
         set_done = None
         if guard is not None:
             for st in walk_local(guard):
@@ -149,26 +182,63 @@ def check_dedup_wrap(ctx, repo, rule):
     # getbounds margin loops may step outside [0, nRa-1] so that assign can wrap them
     g = repo.func(SG, 'chunks.getbounds')
     ga = FA(g)
-    loops = [n for n in walk_local(g.node) if isinstance(n, ast.While) and 'raCheck' in src(n.test)]
+    # decided by interpretation: with n RA cells and the margin test assumed true as long as it is evaluated (a point within the margin
+    # of every edge), the lower loop started in any cell 0..n-1 must end at -1 and the upper loop at n
+    loops = []
+    for n_ in walk_local(g.node):
+        if isinstance(n_, ast.While):
+            steps_ = [st for st in walk_local(n_) if isinstance(st, ast.AugAssign) and isinstance(st.target, ast.Name) and try_fold(st.value) == 1
+                      and isinstance(st.op, (ast.Add, ast.Sub))]
+            if len(steps_) == 1 and any(isinstance(x, ast.Attribute) and x.attr == 'raBounds' for x in ast.walk(expand(n_.test, ga, depth=4))) or \
+                    (len(steps_) == 1 and any(isinstance(x, ast.Attribute) and x.attr == 'raBounds' for st in walk_local(n_) for x in ast.walk(st))):
+                loops.append((n_, steps_[0]))
     ctx.need(len(loops) == 2, 'chunks.getbounds: RA margin loops not found')
-    for lp in loops:
-        down = any(isinstance(st, ast.AugAssign) and isinstance(st.op, ast.Sub) and src(st.target) == 'raCheck' for st in walk_local(lp))
-        bound = None
-        for c in ast.walk(lp.test):
-            if isinstance(c, ast.Compare) and src(c.left) == 'raCheck':
-                bound = c
-        if down:
-            ok = bound is not None and ((isinstance(bound.ops[0], ast.Gt) and try_fold(bound.comparators[0]) == -1) or
-                                        (isinstance(bound.ops[0], ast.GtE) and try_fold(bound.comparators[0]) == 0))
-            what = 'lower margin loop can step to cell -1 (wrapped into the last cell by assign)'
-        else:
-            ok = bound is not None and isinstance(bound.ops[0], ast.Lt) and src(bound.comparators[0]) == 'self.nRa[i]'
-            what = 'upper margin loop can step to cell nRa (wrapped into cell 0 by assign)'
-        ctx.check(rule, ok, g, lp, 'getbounds: %s [%s]' % (what, src(bound) if bound is not None else '?'),
-                  msg='getbounds: the %s margin loop is bounded by `%s`: a point within the margin of the %s edge of the RA range is never entered in the '
-                      'wrapped cell, so pairs straddling RA 0/360 are missed' % ('lower' if down else 'upper', src(bound) if bound is not None else src(lp.test)[:50],
-                                                                                'lower' if down else 'upper'),
-                  construct='margin loop bound %s' % (src(bound) if bound is not None else src(lp.test)[:50]))
+    for lp, step in loops:
+        down = isinstance(step.op, ast.Sub)
+        var = step.target.id
+        blk = lp._parent.body if lp in getattr(lp._parent, 'body', []) else None
+        ctx.need(blk is not None, 'chunks.getbounds: RA margin loop is not in a plain block')
+        k0 = blk.index(lp)
+        # statements between the initialisation of the walking index and the loop (flags such as keepGoing = True)
+        j = k0 - 1
+        while j >= 0 and not (isinstance(blk[j], ast.Assign) and len(blk[j].targets) == 1 and isinstance(blk[j].targets[0], ast.Name) and blk[j].targets[0].id == var):
+            j -= 1
+        pre = blk[j + 1:k0] if j >= 0 else []
+
+        def size_names():
+            out = {}
+            for x in walk_local(g.node):
+                if isinstance(x, ast.Name) and isinstance(x.ctx, ast.Load):
+                    v = ga.resolve(x)
+                    if v is not None and isinstance(v, ast.Subscript) and isinstance(v.value, ast.Attribute) and v.value.attr == 'nRa':
+                        out[x.id] = True
+            return out
+        snames = size_names()
+        bad = None
+        try:
+            for n in range(1, 5):
+                for r0 in range(0, n):
+                    opaque = {'__assume__': lambda e: True}
+                    for x in walk_local(g.node):
+                        if isinstance(x, ast.Subscript) and isinstance(x.value, ast.Attribute) and x.value.attr == 'nRa':
+                            opaque[src(x).replace(' ', '')] = n
+                    env = {var: r0}
+                    for nm in snames:
+                        env[nm] = n
+                    env = minieval.run(pre, env, opaque, lambda s_, e_: None) or env
+                    end = minieval.run_while(lp, env, opaque)
+                    if end.get(var) != (-1 if down else n) and bad is None:
+                        bad = (n, r0, end.get(var))
+        except minieval.Unknown as e:
+            raise AnalysisError('C04/C05: the RA margin loop of chunks.getbounds is not an idiom the index evaluator understands (%s)' % e)
+        what = ('lower margin loop can step to cell -1 (wrapped into the last cell by assign)' if down
+                else 'upper margin loop can step to cell nRa (wrapped into cell 0 by assign)')
+        ctx.check(rule, bad is None, g, lp, 'getbounds: %s [`%s`]' % (what, src(lp.test)[:60]),
+                  msg='getbounds: the %s margin loop `%s` started in cell %s of %s ends at %s, not at %s, although the point is within the margin of every edge: '
+                      'a point within the margin of the %s edge of the RA range is never entered in the wrapped cell, so pairs straddling RA 0/360 are missed'
+                      % ('lower' if down else 'upper', src(lp.test)[:50], bad[1] if bad else '', bad[0] if bad else '', bad[2] if bad else '',
+                         '-1' if down else 'nRa', 'lower' if down else 'upper'),
+                  construct='margin loop bound %s' % src(lp.test)[:50])
     # the declination range is widened slice by slice for as long as the margin reaches the next slice (a loop, not a single step:
     # slices near a clamped pole edge are narrower than the nominal size)
     steps = [st for st in walk_local(g.node) if isinstance(st, ast.AugAssign) and isinstance(st.target, ast.Name) and try_fold(st.value) == 1
